@@ -68,6 +68,30 @@ Section Inv.
     vrel (vars m) (sp_vars sp) (now m) /\ timers_ok (vars m) (timers m) (now m) /\
     subs_ok (vars m) (nsid m) (now m) (subs m) (sp_subs sp).
 
+  (* the same relations when the pending timers are only known not to have been due at an EARLIER time t0 (the
+     clock moved on while the loop did not run: some of them may be overdue).  R m sp is Rt (now m) m sp. *)
+  Definition R0t (t0 : Z) (m : state) (sp : sstate) : Prop :=
+    sp_now sp = now m /\ sp_nsid sp = nsid m /\ 0 <= now m /\
+    vrel (vars m) (sp_vars sp) (now m) /\ timers_ok (vars m) (timers m) t0 /\
+    subs_ok0 (nsid m) (now m) (subs m) (sp_subs sp).
+
+  Definition Rt (t0 : Z) (m : state) (sp : sstate) : Prop :=
+    sp_now sp = now m /\ sp_nsid sp = nsid m /\ 0 <= now m /\
+    vrel (vars m) (sp_vars sp) (now m) /\ timers_ok (vars m) (timers m) t0 /\
+    subs_ok (vars m) (nsid m) (now m) (subs m) (sp_subs sp).
+
+  Lemma R_Rt m sp : R m sp -> Rt (now m) m sp.
+  Proof. intros H. exact H. Qed.
+
+  Lemma Rt_R t0 m sp : Rt t0 m sp -> t0 = now m -> R m sp.
+  Proof. intros H ->. exact H. Qed.
+
+  Lemma Rt_R0t t0 m sp : Rt t0 m sp -> R0t t0 m sp.
+  Proof.
+    intros [H1 [H2 [H3 [H4 [H5 H6]]]]]. unfold R0t. repeat (split; [assumption|]).
+    eapply subs_ok_weaken; eauto.
+  Qed.
+
   Lemma R_R0 m sp : R m sp -> R0 m sp.
   Proof.
     intros [H1 [H2 [H3 [H4 [H5 H6]]]]]. unfold R0. repeat (split; [assumption|]).
